@@ -37,6 +37,9 @@ ShapesCrash2 == {Shp({}, <<Blk(<<2>>, 1, 0, {})>>, 0), Shp({}, <<Blk(<<1, 1>>, 2
 ShapesCrashChk == {Shp({"cont"}, <<Blk(<<1>>, 1, 0, {"pre"})>>, 0), Shp({"bypass"}, <<Blk(<<1>>, 1, 0, {"deferred"})>>, 0),
                    Shp({"pre"}, <<Blk(<<1, 1>>, 1, 1, {"bypass"})>>, 0),
                    Shp({}, <<Blk(<<1>>, 1, 0, {"pre", "cont"}), Blk(<<1>>, 1, 0, {})>>, 0)}
+\* post-checks at both levels with a block behind them (a durably failed group fails its scope also after a restart)
+ShapesCrashPost == {Shp({"post"}, <<Blk(<<1>>, 1, 0, {"post"}), Blk(<<1>>, 1, 0, {})>>, 0),
+                    Shp({"deferred"}, <<Blk(<<1>>, 1, 0, {"pre", "post", "deferred"}), Blk(<<1>>, 1, 0, {})>>, 0)}
 \* liveness: every plan reaches "finished" under weak fairness, also across a crash, also with continuous checks
 ShapesLive == {Shp({"cont"}, <<Blk(<<1>>, 1, 0, {"pre", "cont"})>>, 0), Shp({}, <<Blk(<<1, 1>>, 2, 0, {"cont", "deferred"})>>, 0)}
 ShapesLiveCrash == {Shp({"pre", "deferred"}, <<Blk(<<1>>, 1, 0, {"post"})>>, 0), Shp({}, <<Blk(<<1, 1>>, 2, 1, {})>>, 0)}
